@@ -28,10 +28,14 @@ VPt(n, ts) == Pt("v", "0", ts, 10 * NodeIdx(n) + ts, 0, "")
 EPt(n, p, ts) == Pt("ev", "0", ts, 100 + 10 * NodeIdx(n) + ts, 0, "")
 Tomb(ts, v) == Pt("tombstone", "0", ts, v, 0, "")
 NaNPt == Pt("v", "0", 1, NaNVal, 0, "")
+NaNEPt == Pt("ev", "0", 1, NaNVal, 0, "")
 Pairs == {y \in Nodes \X AllNodes : y[1] # y[2]}
 GraphOps ==
     {Np(n, Batch(<<VPt(n, ts)>>, "")) : n \in AllNodes, ts \in 1..MaxTs}
     \cup {Np(n, Batch(<<VPt(n, 1), NaNPt>>, "")) : n \in Nodes}
+    \* a NaN that a newer point of the same identity in the same batch supersedes: still refused
+    \cup {Np(n, Batch(<<NaNPt, VPt(n, 2)>>, "")) : n \in Nodes}
+    \cup {Ep(y[1], y[2], Batch(<<NaNEPt, EPt(y[1], y[2], 2)>>, "t")) : y \in Pairs}
     \cup {Ep(n, p, Batch(<<Tomb(1, 0)>>, "t")) : n \in Nodes, p \in AllNodes}             \* create (also self-edge)
     \* one timestamp carries one fixed tombstone value (distinct timestamps per identity):
     \* even ts = delete, odd ts = undelete
@@ -66,6 +70,9 @@ ShapeOps == CASE Shape = "diamond" -> <<Create("A", R), Create("B", R), Create("
               \* a deleted edge at the bottom / at the top of a chain: cycles through deleted edges,
               \* rebroadcast of edge points above a deleted ancestor edge, re-adding
               [] Shape = "delbottom" -> <<Create("A", R), Create("B", "A"), Ep("B", "A", Batch(<<Tomb(2, 1)>>, ""))>>
+              \* a node moved from A to B: its older placement is the deleted one
+              [] Shape = "moved"   -> <<Create("A", R), Create("B", R), Create("C", "A"), Create("C", "B"),
+                                        Ep("C", "A", Batch(<<Tomb(2, 1)>>, ""))>>
               [] Shape = "deltop"  -> <<Create("A", R), Create("B", "A"), Create("C", "B"),
                                         Ep("A", R, Batch(<<Tomb(2, 1)>>, ""))>>
               [] OTHER             -> <<>>
@@ -130,8 +137,36 @@ ChangeReachesRoot ==
         (r.reply = "" /\ op.kind = "np" /\ r.s.npts # s.npts)
             => \A e \in AncEdges(s, op.n) : r.s.hash[e] # s.hash[e]
 
+\* reads (beyond the listed properties): the walk clients use to enumerate the tree finds exactly
+\* the nodes connected to the root by live edges; the filters are consistent with each other
+TypeOfEdge(e) == IF e[2] = R THEN "device" ELSE "t"
+RD(st, p, n, t, d) == Read(st, p, n, t, d, TypeOfEdge)
+ReadsAgree ==
+    /\ WalkFromRoot(s, TypeOfEdge) = LiveNodes(s)
+    /\ \A n \in Nodes : RD(s, "all", n, "", TRUE) = UNION {RD(s, p, n, "", TRUE) : p \in AllNodes}
+    /\ RD(s, "all", R, "", TRUE) = RD(s, "root", "all", "", TRUE)          \* id is ignored below "root"
+    /\ \A n \in AllNodes : RD(s, "root", n, "", TRUE) = RD(s, "root", "all", "", TRUE)
+    /\ \A p \in AllNodes : RD(s, p, "all", "", TRUE) = UNION {RD(s, p, n, "", TRUE) : n \in AllNodes}
+    /\ UNION {RD(s, p, "all", "", TRUE) : p \in AllNodes \cup {Sentinel}} = s.edges
+    /\ \A p \in AllNodes, d \in BOOLEAN : RD(s, p, "all", "", d) = RD(s, p, "all", "t", d) \cup RD(s, p, "all", "device", d)
+    /\ \A p \in AllNodes : RD(s, p, "all", "", FALSE) = {e \in RD(s, p, "all", "", TRUE) : ~DeletedIn(s, e)}
+    /\ RD(s, "root", "all", "", TRUE) = {<<Sentinel, R>>}
+
 \* ---------------------------------------------------------------- role 2
 gvars == <<s, delivered, n_ops, hist>>
+\* the read requests whose answers are predicted after a step: those around the written node and
+\* edge after every step, the whole family after the last one
+QRec(st, p, n, t, d) == [parent |-> p, id |-> n, typ |-> t, del |-> d, err |-> ReadRefused(p, n),
+                         res |-> IF ReadRefused(p, n) THEN <<>>
+                                 ELSE SetToSeqAny({<<e[1], e[2]>> : e \in RD(st, p, n, t, d)})]
+QAround(st, op) ==
+    {QRec(st, "all", op.n, t, d) : t \in {"", "t"}, d \in BOOLEAN}
+    \cup (IF op.kind = "ep" THEN {QRec(st, op.p, n, "", d) : n \in {op.n, "all"}, d \in BOOLEAN} ELSE {})
+    \cup {QRec(st, "root", "all", "", FALSE)}
+QFull(st) ==
+    {QRec(st, p, n, td[1], td[2]) : p \in AllNodes \cup {"all", "root", "none"}, n \in AllNodes \cup {"all"},
+                                    td \in {<<"", FALSE>>, <<"", TRUE>>, <<"t", FALSE>>, <<"device", TRUE>>}}
+Queries(st, op, last) == SetToSeqAny(IF last THEN QFull(st) ELSE QAround(st, op))
 Obs(st) == [edges |-> SetToSeqAny({[up |-> e[1], down |-> e[2], hash |-> SetToSeqAny(st.hash[e]),
                                     pts |-> SetToSeqAny(st.epts[e])] : e \in st.edges}),
             nodes |-> SetToSeqAny({[id |-> n, pts |-> SetToSeqAny(st.npts[n])] : n \in DOMAIN st.npts})]
@@ -139,12 +174,14 @@ Obs(st) == [edges |-> SetToSeqAny({[up |-> e[1], down |-> e[2], hash |-> SetToSe
 ShapeHist == [i \in 1..Len(ShapeOps) |->
                 LET before == ApplyAll(InitStore(R), SubSeq(ShapeOps, 1, i - 1), 1)
                     r == Apply(before, ShapeOps[i])
-                IN [op |-> ShapeOps[i], reply |-> r.reply, out |-> SetToSeqAny(r.out), obs |-> Obs(r.s)]]
+                IN [op |-> ShapeOps[i], reply |-> r.reply, out |-> SetToSeqAny(r.out), obs |-> Obs(r.s),
+                    q |-> Queries(r.s, ShapeOps[i], FALSE)]]
 GenInit == Init /\ hist = IF Mode = "graph" THEN ShapeHist ELSE <<>>
 GenNext == /\ n_ops < MaxOps
            /\ \E op \in Ops : /\ Step(op)
                               /\ LET r == Apply(s, op)
-                                 IN hist' = Append(hist, [op |-> op, reply |-> r.reply, out |-> SetToSeqAny(r.out), obs |-> Obs(r.s)])
+                                 IN hist' = Append(hist, [op |-> op, reply |-> r.reply, out |-> SetToSeqAny(r.out), obs |-> Obs(r.s),
+                                                          q |-> Queries(r.s, op, n_ops + 1 = MaxOps)])
 GenSpec == GenInit /\ [][GenNext]_gvars
 Dump == n_ops = MaxOps => PrintT(ToJson(hist))
 \* C01: one line per delivered set (subsets of the universe) with the expected read
